@@ -142,6 +142,13 @@ def run_check(mod, ctx, t0):
         for r in required:
             if r not in have:
                 proof_problems.append({'what': 'missing theorem', 'detail': r})
+        # thorough tier: the independent re-checker replays the compiled declarations of the property modules
+        if ctx.thorough and props_modules:
+            with common.LakeLock():
+                rc3, out3 = common.run(['lake', 'env', 'leanchecker'] + list(props_modules), cwd=common.LEAN, timeout=3000)
+            ctx.extra['leanchecker'] = 'ok' if rc3 == 0 else 'FAILED'
+            if rc3 != 0:
+                proof_problems.append({'what': 'leanchecker', 'detail': out3[-1500:]})
     obligations = thms
 
     # 4 correspondence + property oracles (always run: it is also the search for a failing input)
